@@ -18,7 +18,7 @@ from . import c03_source
 
 PID = "C03"
 TITLE = "Volume connectivity answers agree with the cell list"
-LEAN_MODULES = ["Mouette.Props.C03", "Mouette.Props.C03Source", "Mouette.Props.C03Boundary", "Mouette.Props.C03Order"]
+LEAN_MODULES = ["Mouette.Props.C03", "Mouette.Props.C03Source", "Mouette.Props.C03Boundary", "Mouette.Props.C03Order", "Mouette.Props.C03Walk", "Mouette.Props.C03Manifold"]
 REQUIRED_THEOREMS = [
     # translated tables
     "adjTable_eq_model", "subFace_eq_model", "adjTable_row_omits_index", "adjTable_agrees_with_slices",
@@ -62,6 +62,13 @@ REQUIRED_THEOREMS = [
     "boundary_maps_inverse_source", "boundary_surface_source_outward", "boundary_surface_source_closed",
     # round 5, part B: order of edge_to_face and "at most two border faces around an edge" from decidable predicates
     "umbrellaData_spec", "edge_to_face_order_of_faceOrder", "walkChain_dropLast_interior", "border_faces_around_edge_le_two",
+    # round 6: other_face_side and the two `while True` walks of _sort_edge_neighborhoods, compiled and bridged to walk / sortEdge
+    "other_face_side_bridge", "while1_bridge", "while2_bridge", "sort_edge_bridge", "sort_edge_frame", "sort_edge_neighborhoods_bridge",
+    "edge_to_face_order_source", "edge_to_cell_order_source",
+    # round 6: the volume-side flag faceCover gives the surface-side edge-manifoldness, hence "exactly two"
+    "faceCover_spec", "mem_e2f_of_hasEdge", "boundaryEdgeManifold_of_faceCover", "boundary_closed_exactly_two_of_faceCover",
+    "manifold_of_allFaceCover",
+    "edge_to_cell_face_bridge",
 ]
 
 TRUSTED = [
@@ -1114,17 +1121,16 @@ def search_on_break(rng, broken, mismatches):
 def _source_map():
     V, B, D = "mouette/mesh/datatypes/volume.py::", "mouette/processing/border.py::", "mouette/mesh/mesh_data.py::RawMeshData."
     m = {}
-    for q in c03_source.TRANSLATED + c03_source.TRANSLATED_R5: m[V + q] = "translated"
+    for q in c03_source.TRANSLATED + c03_source.TRANSLATED_R5 + c03_source.TRANSLATED_R6: m[V + q] = "translated"
     for q in c03_source.TRANSLATED_R5_BORDER: m[B + q] = "translated"
     # whole body = the events of the guard table (super().__init__/clear + `self._x = None` stores); theorems
     # volumeGuards_init_covers_caches / volumeGuards_clear_restores_fresh speak about the extracted table
     m[V + "VolumeMesh._Connectivity.__init__"] = "translated"
     m[V + "VolumeMesh._Connectivity.clear"] = "translated"
     C = V + "VolumeMesh._Connectivity."
-    for q, note in (("_sort_edge_neighborhoods", "walk-loop shape (restart, key steps, stop test) re-extracted; walk itself hand-modelled (Conn.walk / sortEdge)"),
-                    ("n_F2C", "guard table only (len of face_to_cells)"), ("other_face_side", "Conn.otherFaceSide"), ("common_face", "Mesh.commonFace"),
+    for q, note in (("n_F2C", "guard table only (len of face_to_cells)"), ("common_face", "Mesh.commonFace"),
                     ("cell_to_vertex", "Mesh.cell"), ("in_cell_index", "Mesh.inCellIndex"), ("in_cell_face_index", "Mesh.inCellFaceIndex"),
-                    ("edge_to_face", "Conn.edgeToCellFace"), ("cell_to_edge", "Mesh.cellToEdge"), ("edge_to_cell", "Conn.edgeToCellFace")):
+                    ("cell_to_edge", "Mesh.cellToEdge")):
         m[C + q] = "modelled: " + note
     M = V + "VolumeMesh."
     for q, note in (("__init__", "events of the body in the translated mesh guard table (meshGuards)"),
@@ -1183,7 +1189,12 @@ MANIFEST = {
                    "are compiled loop by loop (Generated/C03B.lean) and proved equal to the model (face / vertex maps, points, one oriented triangle per border "
                    "face; edge maps modulo the inherited edge_id of the boundary surface), so 'exactly the border faces', 'maps mutually inverse', 'oriented "
                    "outwards' and the closedness count are restated on what the source computes; the order of edge_to_face and 'at most two border faces "
-                   "around an edge' follow from decidable predicates evaluated on the mesh (faceOrder, faceCover)."),
+                   "around an edge' follow from decidable predicates evaluated on the mesh (faceOrder, faceCover). "
+                   "Round 6: other_face_side and the whole body of _sort_edge_neighborhoods (guard, edge loop, the two `while True` walks with their break on a "
+                   "fuel argument, the resets, the two sort(key=..) calls) and the accessors edge_to_face / edge_to_cell are compiled (Generated/C03W.lean) and "
+                   "proved equal to the model's walk / sortEdge / edgeToCellFace, so faceOrder / edgeUmbrella now speak about what the source computes; "
+                   "faceCover on every stored edge (volume side, decidable) implies edge-manifoldness of the extracted surface, hence 'every side of every "
+                   "boundary triangle lies in exactly two boundary triangles' without any surface-side hypothesis."),
     "level_note": ("Trusted: Lean kernel + propext/Classical.choice/Quot.sound; the hand-written model (checked against the code on the meshes "
                    "of each run only); the ast translator; prepared face/edge containers as checked hypotheses (C02). Proved under explicit walk hypotheses: "
                    "rotational order of edge_to_cell / edge_to_face (the edge-umbrella hypothesis - the two walks reach every cell / face "
